@@ -98,6 +98,7 @@ class Gen:
 		self.other: list[Member] = []     # members of earlier enums
 		self.enum = ''
 		self.later_names: list[str] = []  # names of members still to come (forward references)
+		self.kinds = ['int', 'int', 'int', 'float', 'float', 'str', 'str']  # kinds a member is drawn from
 
 	def on(self, region: str, p: float) -> bool:
 		if region in REGION_FEATURE and self.excluded():
@@ -393,7 +394,7 @@ class Gen:
 	def member_expr(self) -> tuple[str, Any, set[str]]:
 		for _ in range(40):
 			self.feats = set()
-			kind = self.rng.choice(['int', 'int', 'int', 'float', 'float', 'str', 'str'])
+			kind = self.rng.choice(self.kinds)
 			d = self.rng.randint(0, self.max_depth)
 			try:
 				t, v = self.level(kind, 0, d)
@@ -405,11 +406,15 @@ class Gen:
 		return '1', 1, set()
 
 
-def gen_module(rng: random.Random, regions: frozenset[str], max_depth: int, n_enums: int, n_members: int, boost: float = 1.0) -> list[list[Member]]:
+def gen_module(rng: random.Random, regions: frozenset[str], max_depth: int, n_enums: int, n_members: int, boost: float = 1.0,
+		homogeneous: bool = False) -> list[list[Member]]:
+	"""`homogeneous`: every enum is all-numeric or all-string (tranp types `Enum.X.value` by the enum's first member)."""
 	g = Gen(rng, regions, max_depth, boost)
 	enums: list[list[Member]] = []
 	for ei in range(n_enums):
 		g.enum = f'E{ei}'
+		if homogeneous:
+			g.kinds = ['str'] if rng.random() < 0.3 else ['int', 'int', 'float']
 		g.same = []
 		names = [f'M{i}' for i in range(rng.randint(max(2, n_members - 3), n_members))]
 		for i, name in enumerate(names):
@@ -1045,6 +1050,150 @@ def search_real(ctx: Ctx, app: Any, seen_cases: list[Case]) -> SearchResult:
 
 
 # ---------------------------------------------------------------------------------------------
+# search at the property's second observation point: the enum value text in the transpiled output
+
+
+def make_py2cpp_app(ctx: Ctx) -> Any:
+	"""A MemApp with the DI wiring of tests/unit/rogw/tranp/implements/cpp/transpiler/test_py2cpp.py."""
+	from rogw.tranp.app.dir import tranp_dir
+	from rogw.tranp.i18n.i18n import I18n, TranslationMapping
+	from rogw.tranp.implements.cpp.providers.i18n import translation_mapping_cpp
+	from rogw.tranp.implements.cpp.providers.view import renderer_helper_provider_cpp
+	from rogw.tranp.implements.cpp.transpiler.py2cpp import Py2Cpp
+	from rogw.tranp.lang.middleware import Middleware
+	from rogw.tranp.lang.module import to_fullyname
+	from rogw.tranp.transpiler.types import TranspilerOptions
+	from rogw.tranp.view.render import Renderer, RendererEmitter, RendererHelperProvider, RendererSetting
+
+	def make_renderer_setting(i18n: I18n, emitter: RendererEmitter) -> RendererSetting:
+		env = {'immutable_param_types': ['std::string', 'std::vector', 'std::map', 'std::function']}
+		return RendererSetting([os.path.join(tranp_dir(), 'data/cpp/template')], i18n.t, emitter, env)
+
+	# this module uses postponed annotations; the DI reads the annotation objects
+	make_renderer_setting.__annotations__ = {'i18n': I18n, 'emitter': RendererEmitter, 'return': RendererSetting}
+
+	return common.MemApp(ctx.tmpdir(), {
+		to_fullyname(Py2Cpp): Py2Cpp,
+		to_fullyname(Renderer): Renderer,
+		to_fullyname(RendererEmitter): Middleware,
+		to_fullyname(RendererHelperProvider): renderer_helper_provider_cpp,
+		to_fullyname(RendererSetting): make_renderer_setting,
+		to_fullyname(TranslationMapping): translation_mapping_cpp,
+		to_fullyname(TranspilerOptions): lambda: TranspilerOptions(verbose=False, env={}),
+	})
+
+
+def read_emitted(text: str) -> tuple[str, Any] | None:
+	"""The literal py2cpp emitted for an `Enum.X.value` read (relay/literalize.j2: a number as is, anything else between double quotes)."""
+	import ast
+	t = text.strip()
+	if len(t) >= 2 and t[0] == '"' and t[-1] == '"':
+		return 'str', t[1:-1]
+	try:
+		v = ast.literal_eval(t)
+	except (ValueError, SyntaxError, MemoryError, RecursionError):
+		try:
+			v = float(t) if re.fullmatch(r'-?(inf|nan)', t) else None
+		except ValueError:
+			v = None
+	if type(v) in (int, float):
+		return type(v).__name__, v
+	return None
+
+
+def compare_output(text: str, py: Any, escaped: bool) -> str | None:
+	if _is_exc(py):
+		return None
+	got = read_emitted(text)
+	if got is None:
+		return f'the emitted text {text!r} is not a literal; CPython gives {show_value(py)}'
+	kind, v = got
+	if kind == 'str' and type(py) is str:
+		content = unescape(v) if escaped else v
+		return None if content == py else f'the emitted text {text!r} has the content {content!r}, CPython gives {py!r}'
+	if kind in ('int', 'float') and type(py) in (int, float) and kind == type(py).__name__:
+		return None if show_value(v) == show_value(py) else f'the emitted text {text!r} is {show_value(v)}, CPython gives {show_value(py)}'
+	return f'the emitted text {text!r} is a {kind}, CPython gives {show_value(py)}'
+
+
+def search_output(ctx: Ctx, only: list[list[Member]] | None = None) -> SearchResult:
+	"""Transpile `Enum.Member.value` reads with the real Py2Cpp; the emitted literal must be CPython's value of the member (py2cpp.py:842-848)."""
+	import rogw.tranp.syntax.node.definition as defs
+	from rogw.tranp.errors import Errors
+	from rogw.tranp.implements.cpp.transpiler.py2cpp import Py2Cpp
+	res = SearchResult('emitted text of Enum.Member.value == eval(member value) with equal type, or an application error — real Py2Cpp vs CPython eval')
+	rng = ctx.sub_rng('output')
+	app = make_py2cpp_app(ctx)
+	regions = ALL_REGIONS - {'confuse'}
+	modules: list[tuple[list[list[Member]], str]] = [(enums, f'corpus:{label}') for label, enums in load_corpus()] if only is None else [(only, 'replay')]
+	for i in range(ctx.scale(110, 800) if only is None else 0):
+		modules.append((gen_module(rng, regions, 1 + i % 4, 1 + i % 3, 4 + i % 5, boost=3.0 if i % 6 == 5 else 1.0, homogeneous=True), f'output#{i}'))
+	hist: dict[str, int] = {}
+	texts = set()
+
+	def add(key: str, what: str, replay: dict[str, Any]) -> None:
+		hist[f'finding:{key}'] = hist.get(f'finding:{key}', 0) + 1
+		if sum(1 for f in res.findings if f.key == key) < 3:
+			res.findings.append(Finding(key=key, what=what, replay=replay))
+
+	for enums, label in modules:
+		members = [m for ms in enums for m in ms]
+		source = module_source(enums) + 'def f() -> None:\n' + ''.join(f'\t{m.enum}.{m.name}.value\n' for m in members)
+		try:
+			mod = app.module(source)
+			transpiler = app.resolve(Py2Cpp)
+			fn = [st for st in mod.entrypoint.statements if isinstance(st, defs.Function)][0]
+			reads = list(fn.statements)
+			by_name = {c.domain_name: c for c in mod.entrypoint.statements if isinstance(c, defs.Enum)}
+			assert len(reads) == len(members)
+		except Exception as e:  # noqa: BLE001
+			add('module-rejected', f'tranp does not load a generated Enum module with .value reads: {exc_enum(e)}', {'source': source, 'kind': 'output'})
+			continue
+		py = python_results(enums)
+		mixed = [ms[0].enum for ms in enums if len({type(py[m.key]) is str for m in ms if not _is_exc(py[m.key])}) > 1]
+		if mixed:
+			# tranp types `Enum.X.value` by the enum's first member (an enum mixing strings and numbers is outside its typing, C03):
+			# whether the literal is quoted follows that type, so such modules are not judged here
+			hist['info:module-with-mixed-enum-skipped'] = hist.get('info:module-with-mixed-enum-skipped', 0) + 1
+			continue
+		for m, node in zip(members, reads):
+			res.cases += 1
+			texts.add(m.text)
+			try:
+				text = transpiler.transpile(node)
+			except Errors.Error:
+				hist['refused'] = hist.get('refused', 0) + 1
+				continue
+			except Exception as e:  # noqa: BLE001
+				add('output-non-app-error', f'{m.key} = {m.text}: transpiling {m.enum}.{m.name}.value raised {exc_enum(e)}, which is not an application error',
+					{'source': source, 'member': m.key, 'kind': 'output'})
+				continue
+			value_node = by_name[m.enum].var_value(m.name)
+			if isinstance(value_node, defs.String) and not re.fullmatch(r"'[^'\\\n]*'|\"[^\"\\\n]*\"", value_node.tokens):
+				# a lone triple-quoted / prefixed / escaped string literal never reaches the evaluator (py2cpp.py:846 emits tokens[1:-1]):
+				# quoting of string literals in the output is property C01's subject, not counted here
+				hist['info:lone-nonplain-string-literal'] = hist.get('info:lone-nonplain-string-literal', 0) + 1
+				continue
+			bad = compare_output(text, py[m.key], 'escape' in m.feats)
+			hist['value/py-error' if _is_exc(py[m.key]) else 'value/py-value'] = hist.get('value/py-error' if _is_exc(py[m.key]) else 'value/py-value', 0) + 1
+			if isinstance(value_node, defs.Factor) and not isinstance(value_node.value, defs.Literal):
+				hist['shape:signed-non-literal'] = hist.get('shape:signed-non-literal', 0) + 1
+			if bad:
+				key = EXCLUDED_KEYS['escape'] if 'escape' in m.feats else f"output-mismatch:{(read_emitted(text) or ('text', None))[0]}-vs-{show_py(py[m.key]).split(' ')[0]}"
+				add(key, f'{m.key} = {m.text}: {bad}', {'source': source, 'member': m.key, 'text': m.text, 'emitted': text, 'eval': show_py(py[m.key]), 'features': sorted(m.feats), 'kind': 'output'})
+			elif len(res.samples) < 3 and len(m.text) > 10:
+				res.samples.append({'member': m.text, 'emitted': text, 'eval': show_py(py[m.key])})
+	novel = [f for f in res.findings if f.key not in EXCLUDED_KEYS.values()]
+	res.findings = novel + [f for f in res.findings if f.key in EXCLUDED_KEYS.values()]
+	res.distinct = len(texts)
+	res.histogram = hist
+	res.note = ('modules whose enums are all-numeric or all-string (tranp types Enum.X.value by the first member), one function reading every Enum.Member.value; each read '
+		'transpiled by the real Py2Cpp (DI of test_py2cpp.py); the emitted literal parsed (number as is, string between the double quotes) and compared with CPython eval of the member value; '
+		'lone non-plain string literals are left to C01')
+	return res
+
+
+# ---------------------------------------------------------------------------------------------
 
 
 STATEMENTS = {
@@ -1078,7 +1227,7 @@ def run(ctx: Ctx) -> int:
 		with ctx.timed('correspondence'):
 			streams = [stream_impl(ctx, cases), stream_py(ctx, cases), stream_unescape(ctx)]
 	with ctx.timed('search'):
-		searches = [search_real(ctx, app, cases)]
+		searches = [search_real(ctx, app, cases), search_output(ctx)]
 	return common.finish(ctx, proof, streams, searches,
 		translate_ok=translate_ok, translate_msg=translate_msg,
 		statements=STATEMENTS,
@@ -1122,6 +1271,19 @@ def replay(ctx: Ctx, path: str) -> int:
 	if 'source' not in inp:
 		return run(Ctx(PROP, rec.get('tier', 'quick'), int(rec.get('seed', 0))))
 	feats = set(inp.get('features', []))
+	if inp.get('kind') == 'output':
+		enums = parse_module_source(inp['source'].split('def f() -> None:')[0])
+		for ms in enums:
+			for m in ms:
+				m.feats = set(feats) if m.key == inp.get('member') else set()
+		res = search_output(ctx, only=enums)
+		hits = [f for f in res.findings if inp.get('member') in (None, f.replay.get('member'))]
+		for f in hits:
+			print(f'replay: VIOLATES [{f.key}] {f.what}')
+		if not hits:
+			print(f'replay: holds ({res.cases} Enum.Member.value reads transpiled, histogram {res.histogram})')
+		ctx.cleanup()
+		return 1 if hits else 0
 	case = Case(parse_module_source(inp['source']), 'replay')
 	app = common.MemApp(ctx.tmpdir())
 	try:
